@@ -18,6 +18,17 @@ import posixpath
 class _Path:
     join = staticmethod(posixpath.join)
     basename = staticmethod(posixpath.basename)
+    dirname = staticmethod(posixpath.dirname)
+    splitext = staticmethod(posixpath.splitext)
+    split = staticmethod(posixpath.split)
+    normpath = staticmethod(posixpath.normpath)
+    abspath = staticmethod(posixpath.normpath)
+    isabs = staticmethod(posixpath.isabs)
+
+    def getsize(self, p):
+        if p not in self._fs.files:
+            raise FileNotFoundError(2, "No such file: %r" % p)
+        return len(self._fs.files[p])
 
     def __init__(self, fs):
         self._fs = fs
@@ -50,6 +61,29 @@ class _OsFacade:
     def mkdir(self, p):
         self._fs.dirs.add(p.rstrip("/"))
 
+    # a FileAdapter that writes to a scratch file and renames it into place is a legitimate (better) implementation:
+    # the facade offers what such code needs, with POSIX semantics (rename is atomic; nothing durable happens once crashed)
+    unlink = remove
+
+    def replace(self, src, dst):
+        return self._fs.rename(str(src), str(dst))
+
+    rename = replace
+
+    def getpid(self):
+        return 4242
+
+    def fsync(self, fd):
+        return None
+
+    def fspath(self, p):
+        return str(p)
+
+    def scandir(self, p):
+        import types
+        return [types.SimpleNamespace(name=n, path=posixpath.join(p, n), is_file=lambda: True, is_dir=lambda: False)
+                for n in self._fs.listdir(p)]
+
 
 class _WFile:
     def __init__(self, fs, path):
@@ -61,6 +95,16 @@ class _WFile:
     def write(self, data):
         self.fs._write(self, data)
         return len(data)
+
+    def flush(self):
+        return None
+
+    def fileno(self):
+        return 3
+
+    @property
+    def name(self):
+        return self.path
 
     def close(self):
         if not self.closed:
@@ -208,6 +252,14 @@ class SimFS:
             raise FileNotFoundError(2, "No such file: %r" % path)
         del self.files[path]
         self.removes += 1
+
+    def rename(self, src, dst):
+        if self.crashed:
+            return
+        if src not in self.files:
+            raise FileNotFoundError(2, "No such file: %r" % src)
+        self.files[dst] = self.files.pop(src)
+        self.writes += 1
 
     # ---- faults placed directly on the durable image (no process involved)
     def put_stray(self, name, content="not a state file\n"):
